@@ -188,6 +188,33 @@ def renumber(lines):
     return out
 
 
+def sibling_canon(lines):
+    """Checkout hands the entries of a manifest to its workers in Go map-iteration order, which is random: the order of SIBLINGS in
+    a checkout trace is immaterial.  Within every maximal run of lines that touch workspace paths, the lines are stably sorted by
+    (first appearance of the top path component, remaining components): a directory's own calls stay before its descendants',
+    the calls on one path keep their order, artifacts keep theirs; only siblings are re-ordered — in both traces alike."""
+    out, run, rank = [], [], {}
+
+    def wpath(l):
+        ws = [t for t in l.split(" ") if t.startswith("W:")]
+        return bytes.fromhex(ws[-1][2:]).split(b"/") if ws else None
+
+    def flush():
+        run.sort(key=lambda e: e[0])
+        out.extend(l for _, l in run)
+        del run[:]
+    for l in lines:
+        w = wpath(l)
+        if w is None:
+            flush()
+            out.append(l)
+        else:
+            r = rank.setdefault(w[0], len(rank))
+            run.append(((r, tuple(w[1:])), l))
+    flush()
+    return out
+
+
 def listing_orders(proj):
     """`op order` lines: the real readdir order of every directory of the workspace"""
     rootb = os.fsencode(proj.root)
